@@ -32,6 +32,7 @@ TYPE_NAMES = {1: "eliot:destination_failure", 2: "eliot:traceback", 3: "eliot:se
               4: "eliot:remote_task", 5: ""}
 TYPE_REV = {v: k for k, v in TYPE_NAMES.items()}
 SAFEFAIL = "eliot: unknown, str() raised exception"
+FOREIGN_CLASSES = {"orjson.JSONEncodeError": 15, "builtins.TypeError": 15}    # what a FileDestination raises
 
 # builtin exception classes with fixed ids
 BUILTIN_CLASSES = {1: "BaseException", 2: "Exception", 3: "KeyError", 4: "KeyboardInterrupt", 5: "GeneratorExit",
@@ -54,10 +55,45 @@ def type_name(t):
     return TYPE_NAMES.get(t, "type%d" % t)
 
 
+HOSTILE_LO, HOSTILE_HI = 60, 70
+UNENCODABLE = [60, 61, 62, 63, 64, 65, 66]     # what a FileDestination (orjson + json_default) cannot write
+
+
+class Hostile(object):
+    """Application value whose str/repr raise and that JSON cannot encode."""
+    def __str__(self):
+        raise RuntimeError("hostile str")
+    __repr__ = __str__
+
+
+def _deep(n):
+    x = []
+    for _ in range(n):
+        x = [x]
+    return x
+
+
+HOSTILE = {60: Hostile(), 61: 2 ** 64, 62: b"by\xfftes", 63: "lone\ud800surrogate", 64: object(), 65: _deep(300),
+           66: {1: "non-string key"}, 67: float("nan"), 68: {"a-set-member"}, 69: complex(1, -2)}
+HOSTILE_ID = {id(v): k for k, v in HOSTILE.items()}
+
+
+def is_hostile_atom(a):
+    return HOSTILE_LO <= a < HOSTILE_HI
+
+
+def norm_atom(a):
+    return a if is_hostile_atom(a) else 20 + (a - 20) % N_VALUES
+
+
 def py_value(v):
     if "i" in v:
         return v["i"]
+    if "t" in v:
+        return type_name(v["t"])
     a = v["a"]
+    if is_hostile_atom(a):
+        return HOSTILE[a]
     return VALUES[(a - 20) % N_VALUES]
 
 
@@ -76,7 +112,9 @@ for _i, _v in enumerate(VALUES):
 def c_val(v):
     if "i" in v:
         return C("VInt", Z(v["i"]))
-    return C("VAtom", Pos(20 + (v["a"] - 20) % N_VALUES))
+    if "t" in v:
+        return C("VTypeName", Pos(v["t"]))
+    return C("VAtom", Pos(norm_atom(v["a"])))
 
 
 def c_type(t):
@@ -118,7 +156,9 @@ def c_behave(b):
     if name == "cycle":
         return C("BCycle", [bool(x) for x in b[1]])
     if name == "on_atom":
-        return C("BOnAtom", Pos(b[1]))
+        return C("BOnAtom", Pos(norm_atom(b[1])))
+    if name == "file":
+        return C("BFile", [Pos(a) for a in UNENCODABLE])
     raise ValueError(b)
 
 
@@ -149,6 +189,9 @@ def c_stmt(st):
         return C("SReenter", Nat(st[1]), [c_stmt(x) for x in st[2]])
     if k == "finish_again":
         return C("SFinishAgain", Nat(st[1]), c_opt(st[2], c_exn))
+    if k == "rawwrite":
+        _, t, fs, ser = st
+        return C("SRawWrite", c_fields(fs), c_opt(ser, lambda x: C("message_ser", c_type(t), c_serlist(x))))
     raise ValueError(st)
 
 
@@ -194,10 +237,11 @@ def c_config(case):
 
 
 def all_dest_ids(case):
+    """recording destinations (compared with the model); real file destinations only show through reports"""
     ids = []
     for o in case.get("pre", []):
         if o[0] == "add":
-            ids += [d[0] for d in o[1]]
+            ids += [d[0] for d in o[1] if d[1][0] != "file"]
     return ids
 
 
@@ -289,13 +333,6 @@ def rename_uuids(obs):
 # ---------------------------------------------------------------------------
 # the real thing
 
-class Hostile(object):
-    """Application value whose str/repr raise and that JSON cannot encode."""
-    def __str__(self):
-        raise RuntimeError("hostile str")
-    __repr__ = __str__
-
-
 def build_classes(spec):
     import asyncio
     classes = {1: BaseException, 2: Exception, 3: KeyError, 4: KeyboardInterrupt, 5: GeneratorExit,
@@ -332,6 +369,10 @@ class Interp(object):
         self.notes = []
         self.dests = {}
         self.ser_calls = []
+        self.files = {}
+        self.events = []
+        self.shadow = {0: []}
+        self.arec = {}
         self.lock = threading.Lock()
         # pristine output state
         self.destinations = _output.Destinations()
@@ -417,18 +458,29 @@ class Interp(object):
     def make_dest(self, d):
         did, b, e = d
         interp = self
+        if b[0] == "file":
+            import io
+            from eliot import FileDestination
+            f = io.BytesIO()
+            self.files[did] = f
+            return FileDestination(file=f)
 
         class Rec(object):
             def __init__(self):
                 self.calls = 0
                 self.log = []
                 self.threads = []
+                self.fails = []
+                self.exn = e
 
             def __call__(self, message):
                 n = self.calls
                 self.calls += 1
                 self.log.append(dict(message))
-                if behave_py(b, n, message, interp):
+                self.threads.append(threading.get_ident())
+                bad = behave_py(b, n, message, interp)
+                self.fails.append(bool(bad))
+                if bad:
                     raise interp.make_exn(e)
         r = Rec()
         self.dests[did] = r
@@ -449,7 +501,40 @@ class Interp(object):
     # -- probes
     def probe(self, c):
         a = self.eliot.current_action()
-        self.probes.append([c, None if a is None else self.handle_of.get(id(a), -1)])
+        got = None if a is None else self.handle_of.get(id(a), -1)
+        self.probes.append([c, got])
+        st = self.shadow.setdefault(c, [])
+        want = st[-1] if st else None
+        if got != want:
+            self.notes.append("probe_mismatch:ctx%d:got=%s:want=%s" % (c, got, want))
+
+    def window(self, kind, c, **info):
+        """record which messages destination 1 was offered, and which field serializers ran, during a typed logging call"""
+        interp = self
+
+        class W(object):
+            def __enter__(w):
+                d = interp.dests.get(1)
+                w.lo = len(d.log) if d else 0
+                w.slo = len(interp.ser_calls)
+                st = interp.shadow.setdefault(c, [])
+                w.cur = st[-1] if st else None
+                return w
+
+            def __exit__(w, *a):
+                d = interp.dests.get(1)
+                ev = dict(info)
+                ev.update({"kind": kind, "lo": w.lo, "hi": len(d.log) if d else 0, "slo": w.slo,
+                           "shi": len(interp.ser_calls), "cur": w.cur})
+                interp.events.append(ev)
+                return False
+        return W()
+
+    def push(self, c, h):
+        self.shadow.setdefault(c, []).append(h)
+
+    def pop(self, c):
+        self.shadow[c].pop()
 
     def register(self, h, action):
         self.actions[h] = action
@@ -477,7 +562,8 @@ class Interp(object):
         kw = self.fields(fs)
         if sers is not None:
             at = self.action_type(t, sers)
-            a = self.call("ActionType", at.as_task if task else at, **kw)
+            with self.window("start", self.cur_ctx, decl=sers["start"], logged=fs, t=t, h=h):
+                a = self.call("ActionType", at.as_task if task else at, **kw)
         elif task:
             a = self.call("start_task", el.start_task, action_type=type_name(t), **kw)
         else:
@@ -500,7 +586,8 @@ class Interp(object):
             _, t, fs, ser, api = st
             kw = self.fields(fs)
             if api == "typed" and ser is not None:
-                self.call("MessageType.log", self.message_type(t, ser).log, **kw)
+                with self.window("msg", c, decl=ser, logged=fs, t=t):
+                    self.call("MessageType.log", self.message_type(t, ser).log, **kw)
             elif api == "Message.log":
                 self.call("Message.log", el.Message.log, message_type=type_name(t), **kw)
             elif api == "Message.new":
@@ -513,26 +600,49 @@ class Interp(object):
             self.call("Action.log", self.actions[h].log, message_type=type_name(t), **self.fields(fs))
         elif k == "act":
             _, h, style, task, t, fs, sers, succ, body, api = st
+            st_now = self.shadow.setdefault(c, [])
+            rec = {"exc": None, "task": bool(task), "parent": (st_now[-1] if st_now else None), "style": style,
+                   "finished": False}
+            self.arec[str(h)] = rec
+            self.cur_ctx = c
             a = self.start(st)
             if style == "with":
-                escaped = None
                 try:
                     with a:
-                        self.probe(c)
-                        self.block(body, c)
-                        self.call("add_success_fields", a.add_success_fields, **self.fields(succ))
+                        self.push(c, h)
+                        try:
+                            self.probe(c)
+                            self.block(body, c)
+                            self.call("add_success_fields", a.add_success_fields, **self.fields(succ))
+                        except LoggingRaised:
+                            raise
+                        except BaseException as e0:
+                            rec["exc"] = self.exc_id(e0)
+                            raise
+                        finally:
+                            self.pop(c)
+                            rec["finished"] = True
+                            w = self.window("end", c, decl=(sers or {}).get("success"), logged=succ, t=t, h=h,
+                                            failed=rec["exc"] is not None, typed=sers is not None)
+                            w.__enter__()
+                    w.__exit__()
                 except LoggingRaised:
                     raise
                 except BaseException as e:
+                    w.__exit__()
                     self.check_same(e, "with")
                     raise
             else:
                 exc = None
 
                 def run_body():
-                    self.probe(c)
-                    self.block(body, c)
-                    self.call("add_success_fields", a.add_success_fields, **self.fields(succ))
+                    self.push(c, h)
+                    try:
+                        self.probe(c)
+                        self.block(body, c)
+                        self.call("add_success_fields", a.add_success_fields, **self.fields(succ))
+                    finally:
+                        self.pop(c)
                 try:
                     if style == "ctx":
                         with a.context():
@@ -544,8 +654,12 @@ class Interp(object):
                 except BaseException as e:
                     self.check_same(e, style)
                     exc = e
+                    rec["exc"] = self.exc_id(e)
                 self.probe(c)
-                self.call("finish", a.finish, exc)
+                rec["finished"] = True
+                with self.window("end", c, decl=(sers or {}).get("success"), logged=succ, t=t, h=h,
+                                 failed=exc is not None, typed=sers is not None):
+                    self.call("finish", a.finish, exc)
                 if exc is not None:
                     raise exc
         elif k == "raise":
@@ -569,23 +683,30 @@ class Interp(object):
             _, h, slot, h2, c2, body, via = st
             from eliot import Action, preserve_context
             box = []
+            self.shadow[c2] = []
+            self.arec[str(h2)] = {"exc": None, "task": False, "parent": None, "style": "remote", "finished": False,
+                                  "remote_of": h}
 
-            def in_thread_body(a2=None):
-                if a2 is not None:
-                    self.register(h2, a2)
-                self.probe(c2)
-                self.block(body, c2)
+            def in_thread_body(a2):
+                self.register(h2, a2)
+                self.push(c2, h2)
+                try:
+                    self.probe(c2)
+                    self.block(body, c2)
+                except LoggingRaised:
+                    raise
+                except BaseException as e0:
+                    self.arec[str(h2)]["exc"] = self.exc_id(e0)
+                    raise
+                finally:
+                    self.pop(c2)
+                    self.arec[str(h2)]["finished"] = True
 
-            if via == "preserve":
-                def f():
-                    a2 = el.current_action()
-                    in_thread_body(a2)
-                target0 = self.call("preserve_context", preserve_context, f)
-
+            def guarded(fn):
                 def target():
                     self.probe(c2)
                     try:
-                        target0()
+                        fn()
                     except LoggingRaised as e:
                         box.append(e)
                     except BaseException as e:
@@ -594,24 +715,21 @@ class Interp(object):
                         except LoggingRaised as e2:
                             box.append(e2)
                     self.probe(c2)
+                return target
+
+            if via == "preserve":
+                def f():
+                    in_thread_body(el.current_action())
+                target = guarded(self.call("preserve_context", preserve_context, f))
             else:
                 tid = self.call("serialize_task_id", self.actions[h].serialize_task_id)
                 if via == "str":
                     tid = tid.decode("ascii")
 
-                def target():
-                    self.probe(c2)
-                    try:
-                        with self.call("continue_task", Action.continue_task, task_id=tid) as a2:
-                            in_thread_body(a2)
-                    except LoggingRaised as e:
-                        box.append(e)
-                    except BaseException as e:
-                        try:
-                            self.check_same(e, "thread")
-                        except LoggingRaised as e2:
-                            box.append(e2)
-                    self.probe(c2)
+                def via_id():
+                    with self.call("continue_task", Action.continue_task, task_id=tid) as a2:
+                        in_thread_body(a2)
+                target = guarded(via_id)
             t = threading.Thread(target=target)
             t.start()
             t.join()
@@ -620,21 +738,40 @@ class Interp(object):
         elif k == "reenter":
             _, h, body, how = st
             a = self.actions[h]
-            if how == "run":
-                def f():
+
+            def f():
+                self.push(c, h)
+                try:
                     self.probe(c)
                     self.block(body, c)
+                finally:
+                    self.pop(c)
+            if how == "run":
                 a.run(f)
             else:
                 with a.context():
-                    self.probe(c)
-                    self.block(body, c)
+                    f()
         elif k == "finish_again":
             exc = None if st[2] is None else self.make_exn(st[2])
             if st[1] in self.actions:   # an action whose statement never ran does not exist (model: no-op)
                 self.call("finish", self.actions[st[1]].finish, exc)
+        elif k == "rawwrite":
+            _, t, fs, ser = st
+            import copy
+            from eliot import Logger
+            d = self.fields(fs)
+            before = dict(d)
+            serializer = None if ser is None else self.message_type(t, ser)._serializer
+            with self.window("raw", c, decl=ser, logged=fs, t=t):
+                self.call("Logger.write", Logger().write, d, serializer)
+            if set(d.keys()) != set(before.keys()) or any(d[x] is not before[x] for x in before):
+                self.notes.append("caller_dict_mutated")
         else:
             raise ValueError(st)
+
+    def exc_id(self, e):
+        ids = [i for i, x in self.raised.items() if x is e]
+        return ids[0] if ids else "foreign:%s" % type(e).__name__
 
     def run(self):
         case = self.case
@@ -651,10 +788,43 @@ class Interp(object):
         obs = {"dests": [[i, [canon_msg(m, self) for m in self.dests[i].log]] for i in all_dest_ids(case)],
                "probes": self.probes, "outcome": outcome}
         obs = rename_uuids(obs)
+        self.check_renders()
         obs["notes"] = self.notes
+        obs["arec"] = self.arec
+        obs["events"] = self.events
+        obs["fails"] = {str(i): self.dests[i].fails for i in all_dest_ids(case)}
+        obs["dest_exn"] = {str(i): self.dests[i].exn for i in all_dest_ids(case)}
+        obs["files"] = {str(i): f.getvalue().decode("utf-8", "replace") for i, f in self.files.items()}
         obs["raw"] = {str(i): [raw_msg(m) for m in self.dests[i].log] for i in all_dest_ids(case)}
         obs["ser_calls"] = self.ser_calls
         return obs
+
+
+def expected_render(message):
+    """_safe_unicode_dictionary as documented: str of the dict of safe reprs"""
+    def saferepr(o):
+        try:
+            return str(repr(o))
+        except BaseException:
+            return SAFEFAIL
+    return str(dict((saferepr(k), saferepr(v)) for k, v in message.items()))
+
+
+def _check_renders(self):
+    """every failure report renders the message the report is about: the closest
+    earlier non-report message offered to the same destination"""
+    for did, d in self.dests.items():
+        last = None
+        for m in d.log:
+            mt = m.get("message_type")
+            if mt == "eliot:destination_failure":
+                if last is None or m.get("message") != expected_render(last):
+                    self.notes.append("render_mismatch:dest%s" % did)
+            else:
+                last = m
+
+
+Interp.check_renders = _check_renders
 
 
 def behave_py(b, n, message, interp):
@@ -676,12 +846,14 @@ def behave_py(b, n, message, interp):
     if name == "not_reports":
         return message.get("message_type") != "eliot:destination_failure"
     if name == "on_atom":
-        target = VALUES[(b[1] - 20) % N_VALUES]
-        return any(type(v) == type(target) and v == target for v in message.values())
+        a = norm_atom(b[1])
+        return any(canon_value(v) == ["a", a] for v in message.values())
     raise ValueError(b)
 
 
 def canon_value(v, interp=None):
+    if id(v) in HOSTILE_ID:
+        return ["a", HOSTILE_ID[id(v)]]
     if isinstance(v, int) and not isinstance(v, bool):
         return ["i", v]
     try:
@@ -723,14 +895,18 @@ def canon_msg(m, interp):
         elif kk == 6:
             cv = ["status", v]
         elif kk == 7:
-            cv = ["cls", interp.class_rev.get(v, v)] if isinstance(v, str) else canon_value(v)
+            cv = ["cls", FOREIGN_CLASSES.get(v, interp.class_rev.get(v, v))] if isinstance(v, str) else canon_value(v)
         elif kk == 8:
             if v == SAFEFAIL:
                 cv = ["safefail"]
             elif isinstance(v, str) and re.match(r"^text\d+$", v):
                 cv = ["a", int(v[4:])]
             elif isinstance(v, str) and re.match(r"^'f\d+'$", v):
-                cv = ["a", int(v[2:-1])]
+                cv = ["a", 1000 + int(v[2:-1])]
+            elif isinstance(v, str) and v[:1] == "'" and v[-1:] == "'" and v[1:-1] in RESERVED:
+                cv = ["a", 1000 + RESERVED[v[1:-1]]]
+            elif isinstance(v, str) and m.get("exception") in FOREIGN_CLASSES:
+                cv = ["a", 1]      # text of an exception made by a library (orjson): not compared
             else:
                 cv = canon_value(v)
         elif kk == 9:
@@ -770,7 +946,7 @@ def project(case, obs):
 class Gen(object):
     def __init__(self, rng, depth=4, width=4, p_raise=0.15, p_typed=0.3, p_fault_ser=0.0, p_handoff=0.08,
                  p_reenter=0.05, p_tb=0.05, p_finish_again=0.05, base_only=0.3, sr=0.15, p_try=0.15,
-                 styles=("with", "with", "ctx", "run"), p_actlog=0.08, p_task=0.08):
+                 styles=("with", "with", "ctx", "run"), p_actlog=0.08, p_task=0.08, p_raw=0.0, p_hostile=0.0):
         self.rng = rng
         self.__dict__.update(locals())
         self.next_h = 0
@@ -817,6 +993,8 @@ class Gen(object):
 
     def value(self):
         rng = self.rng
+        if rng.random() < self.p_hostile:
+            return {"a": rng.randrange(HOSTILE_LO, HOSTILE_HI)}
         if rng.random() < 0.4:
             return {"i": rng.choice([0, 1, -1, 7, -5, 2 ** 31, 2 ** 53 + 1, -2 ** 63, 2 ** 63 - 1, rng.randrange(-100, 100)])}
         return {"a": 20 + rng.randrange(N_VALUES)}
@@ -887,6 +1065,8 @@ class Gen(object):
                 api = "ActionType"
             else:
                 sers, fs, succ, api = None, self.fields(3, 20, 26), self.fields(2, 26, 32), "start_action"
+            fs = fs + [[19, {"i": h}]]
+            succ = succ + [[19, {"i": h}]]
             body = self.stmts(depth - 1, enclosing + [h], c)
             self.finished.append(h)
             return ["act", h, style, task, t, fs, sers, succ, body, api]
@@ -898,6 +1078,15 @@ class Gen(object):
             return ["msg", t, self.fields(3, 32, 40), None, rng.choice(["log_message", "log_message", "Message.log", "Message.new"])]
         if r < 0.62 + self.p_raise:
             return ["raise", self.exn()]
+        if rng.random() < self.p_raw:
+            t = rng.randrange(10, 16)
+            if rng.random() < 0.7:
+                decl, logged = self.typed_fields(32, 40)
+            else:
+                decl, logged = None, self.fields(3, 32, 40)
+            if rng.random() < 0.9:
+                logged = logged + [[5, {"t": t}]]
+            return ["rawwrite", t, logged, decl]
         r2 = rng.random()
         if depth > 0 and r2 < self.p_try:
             return ["try", self.stmts(depth - 1, enclosing, c)]
@@ -952,10 +1141,12 @@ def is_exception_class(classes_spec, cid):
     return issubclass(classes[cid], Exception)
 
 
-def gen_case(rng, n_dests=2, fault=0.5, registry_rate=0.5, **kw):
+def gen_case(rng, n_dests=2, fault=0.5, registry_rate=0.5, file_dest=False, **kw):
     g = Gen(rng, **kw)
     prog = g.program()
     dests = gen_dests(rng, g, n_dests, fault)
+    if file_dest:
+        dests.insert(rng.randrange(1, len(dests) + 1), [9, ["file"], {"id": 0, "cls": 15, "text": 1, "sr": False}])
     registry = []
     for cid in g.class_ids:
         if rng.random() < registry_rate * 0.5:
@@ -964,3 +1155,92 @@ def gen_case(rng, n_dests=2, fault=0.5, registry_rate=0.5, **kw):
             else:
                 registry.append([cid, ["raise", g.exn(cls=rng.choice([8, 9] + [c for c in g.class_ids if c >= 50]))]])
     return {"classes": g.classes, "registry": registry, "pre": [["add", dests]], "prog": prog}
+
+
+def describe(case):
+    """input-distribution keys for the evidence"""
+    out = []
+
+    def walk(stmts, depth):
+        m = depth
+        for st in stmts:
+            out.append("stmt:" + st[0])
+            if st[0] == "act":
+                out.append("style:" + st[2])
+                if st[6] is not None:
+                    out.append("typed_action")
+                m = max(m, walk(st[8], depth + 1))
+            elif st[0] == "try":
+                m = max(m, walk(st[1], depth))
+            elif st[0] == "handoff":
+                out.append("via:" + st[6])
+                m = max(m, walk(st[5], depth + 1))
+            elif st[0] == "reenter":
+                m = max(m, walk(st[2], depth))
+        return m
+    d = walk(case["prog"], 0)
+    out.append("depth:%d" % d)
+    for o in case.get("pre", []):
+        if o[0] == "add":
+            for dd in o[1]:
+                out.append("dest:" + dd[1][0])
+    out.append("registry:%d" % min(len(case.get("registry", [])), 3))
+    return out
+
+
+def shrink(case):
+    """smaller variants of a case: drop a statement, hoist a body, drop destinations/extractors"""
+    import copy
+
+    def variants(stmts):
+        for i in range(len(stmts)):
+            yield stmts[:i] + stmts[i + 1:]
+        for i, st in enumerate(stmts):
+            body_ix = {"act": 8, "try": 1, "handoff": 5, "reenter": 2}.get(st[0])
+            if body_ix is None:
+                continue
+            if st[0] in ("try", "reenter"):
+                yield stmts[:i] + st[body_ix] + stmts[i + 1:]
+            for v in variants(st[body_ix]):
+                st2 = list(st)
+                st2[body_ix] = v
+                yield stmts[:i] + [st2] + stmts[i + 1:]
+    for v in variants(case["prog"]):
+        c = copy.deepcopy(case)
+        c["prog"] = v
+        yield c
+    if case.get("registry"):
+        for i in range(len(case["registry"])):
+            c = copy.deepcopy(case)
+            del c["registry"][i]
+            yield c
+    for oi, o in enumerate(case.get("pre", [])):
+        if o[0] == "add" and len(o[1]) > 1:
+            for i in range(1, len(o[1])):
+                c = copy.deepcopy(case)
+                del c["pre"][oi][1][i]
+                yield c
+
+
+def program_family(name, oracle, n_quick, n_thorough, nontrivial=None, deep=None, **genkw):
+    """A correspondence family over generated logging programs."""
+    from .framework import Family
+
+    def gen(rng, tier):
+        n = n_quick if tier == "quick" else n_thorough
+        out = []
+        for i in range(n):
+            kw = dict(genkw)
+            if tier == "thorough" and i % 3 == 0 and deep:
+                kw.update(deep)
+            nd = kw.pop("n_dests", None)
+            out.append(gen_case(rng, n_dests=nd if nd is not None else rng.randrange(1, 4), **kw))
+        return out
+
+    def nontriv(case, obs):
+        n = sum(len(ms) for _, ms in obs.get("dests", [])) if isinstance(obs, dict) else 0
+        return json.dumps(case["prog"], sort_keys=True) if n >= 3 else None
+
+    return Family(name, gen, run_case, model_expr, model_obs, oracle, nontrivial or nontriv,
+                  imports=["Model.Core", "Model.Prog"], project=project, describe=describe, shrink=shrink,
+                  case_timeout=30, shard=40, coq_shard=60)
